@@ -788,11 +788,23 @@ def history_case(name, rng, tier, variant=None):
             comp_jacobian(live, outs, innames); seq.append("linearize")
     setall(live, B); seq.append("B(%s)" % kind)
     nlin = int(rng.integers(1, 4))
-    oL, JL = evaluate(live, nlin); seq.append("run, linearize x%d" % nlin)
-    if rng.uniform() < 0.3:
-        oL, JL = evaluate(live); seq.append("again")
-    fresh = comp_problem(c["factory"](), B)
-    oF, JF = evaluate(fresh)
+    excL = excF = None
+    try:
+        oL, JL = evaluate(live, nlin); seq.append("run, linearize x%d" % nlin)
+        if rng.uniform() < 0.3:
+            oL, JL = evaluate(live); seq.append("again")
+    except Exception as ex:
+        excL = type(ex).__name__
+    try:
+        fresh = comp_problem(c["factory"](), B)
+        oF, JF = evaluate(fresh)
+    except Exception as ex:
+        excF = type(ex).__name__
+    if excL or excF:
+        if excL == excF:
+            raise Discard()       # the point itself is not admissible (e.g. zero stiffness): not a history effect
+        return [_fail("a live problem and a fresh problem disagree on whether the point can be evaluated", excL, excF,
+                      component=name, nx=nx, ny=ny, symmetry=sym, sequence=seq)]
     out = []
     case = dict(component=name, nx=nx, ny=ny, symmetry=sym, sequence=seq)
 
@@ -828,3 +840,4 @@ def register_history(prop, components):
 class Discard(Exception):
     """raised by an oracle when the generated case is outside the property's quantifier"""
 from . import oracles_aero  # noqa: F401,E402
+from . import oracles_struct  # noqa: F401,E402
